@@ -131,6 +131,13 @@ func runUnit(w *World, pk *Pkg, c *Contract) (res *UnitResult) {
 		res.GenMs = time.Since(t0).Milliseconds()
 	}()
 	decl := c.Decl
+	if c.MapLoop {
+		for i, l := range pk.Loops[decl] {
+			e.loopOrd[l] = i
+		}
+		e.runMapLoop(pk, c)
+		return res
+	}
 	// loop ordinals
 	var loops []ast.Stmt
 	if c.Clause == nil {
